@@ -23,7 +23,7 @@ type config struct {
 	replay   string
 }
 
-func (c *config) thorough() bool { return c.tier == "thorough" }
+func (c *config) thorough() bool  { return c.tier == "thorough" }
 func (c *config) mine(i int) bool { return i%c.nshard == c.shard }
 
 func main() {
